@@ -177,6 +177,18 @@ def all_jobs():
     J.append(dict(id='ctx_createChildShell', src='blocc/context.cpp', contract='ctx_child.c', enforce=mg, roots=[mg], replace=[], cut=[],
                   props=['C16'], pretty='bloc::Context::createChildShell', canaries=['normal'],
                   structs=DEFAULT_STRUCTS + [STD_STRING, 'bloc::Context']))
+    # ---- C08: function environments ----
+    mg = '_ZNK4bloc7Context17resetChildRuntimeERS0_'
+    J.append(dict(id='ctx_resetChildRuntime', src='blocc/context.cpp', contract='ctx_reset.c', enforce=mg, roots=[mg], replace=[V_MOVE_ASSIGN, V_CLEAR], cut=[V_MOVE_ASSIGN, V_CLEAR],
+                  props=['C01', 'C08'], pretty='bloc::Context::resetChildRuntime', canaries=['normal'], unwind=6, bounded_inputs=True,
+                  unwind_why='declared symbol table of at most 2 slots, runtime table of at most 3',
+                  structs=DEFAULT_STRUCTS + [STD_STRING, 'bloc::Context', 'bloc::Symbol', 'bloc::Context::MemorySlot']))
+    mg = '_ZN4bloc14FunctorManager9createEnvERNS_7ContextEjRKSt6vectorIPNS_10ExpressionESaIS5_EE'
+    STORE = '_ZNK4bloc18VariableExpression5storeERNS_7ContextES2_PNS_10ExpressionE'
+    J.append(dict(id='fm_createEnv', src='blocc/functor_manager.cpp', contract='fn_env.c', enforce=mg, roots=[mg], replace=[], cut=[STORE, RTE_CTOR, RTE_CTOR_S],
+                  props=['C01', 'C08'], pretty='bloc::FunctorManager::createEnv', canaries=['normal', 'exceptional'], unwind=5, bounded_inputs=True,
+                  unwind_why='parameter list of at most 2 symbols',
+                  structs=DEFAULT_STRUCTS + [STD_STRING, 'bloc::FunctorManager', 'bloc::FunctorManager::Entry', 'bloc::FunctorManager::Env', 'bloc::Functor', 'bloc::Context', 'bloc::VariableExpression', 'bloc::Symbol']))
     return J
 
 def known_findings():
